@@ -51,7 +51,7 @@ CHECKS = {
  "C06": ("property-based testing (proptest): (base, reference) pairs from a dot-rich structural generator, differential against an own RFC 3986 5.2 resolver; three entry points and two families compared; libFuzzer in thorough; complete product 96 bases x ~900 references; the same reference against a sibling base right after (state between calls); base and reference as views of one buffer",
          "300 k pairs per quick run over all 5.2.2 branches x base shapes (class floors per cell), byte-identical comparison with the RFC target when it is unambiguous, validity + component + path-rendering check when it is not.",
          "Trusts the harness resolver (R-NORM self-checked against a literal 5.2.4). For relative merged paths whose normal form starts with an empty segment both the literal and the Errata-4547 reading are accepted (the statement does not settle it).", "DESIGN.md 4/C06"),
- "C09": ("exhaustive enumeration of all paths <= 6 segments over {a,b:c,'',.,..} (stand-alone + 3 embeddings) + proptest random long paths, vs dot-segment model; lengths beyond the inline buffers, 1-8 MiB segments followed by small paths on the same thread; thorough tier: one path beyond 4 GiB per family; normalized_segments() also read by internal iteration (fold, rfold, try_fold, try_rfold, rev().for_each, last) and from alternating ends",
+ "C09": ("exhaustive enumeration of all paths <= 6 segments over {a,b:c,'',.,..} (stand-alone + 3 embeddings) + proptest random long paths, vs dot-segment model; lengths beyond the inline buffers, 1-8 MiB segments followed by small paths on the same thread; thorough tier: one path beyond 4 GiB per family; normalized_segments() also read by internal iteration (fold, rfold, try_fold, try_rfold, rev().for_each, last) and from alternating ends; deep-stack sweep: k kept '..' or k ordinary segments (k = 0..40, around 64/128/256) x every tail of <= 4 segments over {a, .., .}",
          "normalized_segments / normalized / PathBuf::normalize / PathMut::normalize judged against the N/E model (itself checked against a literal RFC 5.2.4), with idempotence, absoluteness and frame checks.",
          "Trusts the dot-segment model; a lone empty segment may be written the RFC way ('/' or '').", "DESIGN.md 4/C09"),
  "C10": ("model-based stateful property testing (proptest op vectors through one handle) against a list model with shield-reading sets; complete product 31 paths x 5 hosts x all op sequences <= 2 over 12 ops; histories of 63..513 (thorough 4097) calls through one handle; every embedded history replayed through the public unsafe iri::PathMut::new on a plain Vec<u8>",
